@@ -207,7 +207,7 @@ pub fn run(prop: &'static str, tier: Tier) -> ! {
     // 1. Sets(k1;k2;k3)
     let (k1, k2, k3) = match tier {
         Tier::Quick => (4, 3, 1),
-        Tier::Thorough => (5, 3, 2),
+        Tier::Thorough => (5, 4, 2),
     };
     let fam = SetsFamily::new(k1, k2, k3);
     let n = fam.len();
@@ -217,7 +217,7 @@ pub fn run(prop: &'static str, tier: Tier) -> ! {
         || Acc { samples: Samples::new(2), ..Default::default() },
         |acc, i| {
             let pats = fam.get(i);
-            let all_variants = (pats.len() == 2 && i < fam.g1.len() + 77 * 77) || (pats.len() == 3 && fam.g3.len() <= 7) || pats.len() == 1;
+            let all_variants = (pats.len() == 2 && fam.g2.len() <= 900) || (pats.len() == 3 && fam.g3.len() <= 7) || pats.len() == 1;
             for tts in token_type_variants(pats.len(), all_variants) {
                 let cfg = cfg_of(&pats, &tts);
                 let o = check_cfg(&cfg, &tables, do02, do03, do02, true);
@@ -234,7 +234,7 @@ pub fn run(prop: &'static str, tier: Tier) -> ! {
     // 1b. thorough: one additional block of the pairs over G(4) x G(4), rotated by VERIF_SEED; the
     // block is enumerated completely and reported as its own bound
     if tier == Tier::Thorough {
-        let g4 = g_upto(4);
+        let g4 = g_upto(5);
         let total_pairs = g4.len() * g4.len();
         let block = 2_000_000usize.min(total_pairs);
         let start = (run.seed as usize).wrapping_mul(block) % total_pairs;
@@ -243,12 +243,12 @@ pub fn run(prop: &'static str, tier: Tier) -> ! {
             let pats = [g4[idx / g4.len()].as_str(), g4[idx % g4.len()].as_str()];
             let cfg = cfg_of(&pats, &[1, 0]);
             let o = check_cfg(&cfg, &tables, do02, do03, do02, true);
-            absorb(acc, prop, &cfg, "G4-pairs-block", o);
+            absorb(acc, prop, &cfg, "G5-pairs-block", o);
         });
         for a in accs {
             merge(&mut total, a);
         }
-        families.push(json!({"family": "block of ordered pairs over G(4) x G(4) (token types reversed)", "block_start_index": start, "block_size": block, "of_total_pairs": total_pairs, "selected_by": "VERIF_SEED (rotation only; the block is enumerated completely)"}));
+        families.push(json!({"family": "block of ordered pairs over G(5) x G(5) (token types reversed)", "block_start_index": start, "block_size": block, "of_total_pairs": total_pairs, "selected_by": "VERIF_SEED (rotation only; the block is enumerated completely)"}));
     }
 
     // 2. lookahead automata
